@@ -1,39 +1,50 @@
 """C07, mixed configurations: call templates of the shared catalogue that take two or more
-quantity slots are also evaluated with every non-empty proper subset of those slots BARE (a plain
-ndarray, and the same data as a nested python list), the other slots staying quantities.
+array arguments (quantity slots with ndim >= 1) are also evaluated with every non-empty proper
+subset of those slots BARE (a plain ndarray, and the same data as a nested python list), the other
+slots staying quantities.  At least one array argument always keeps its units.  Besides the seeded
+data every configuration is also run with the bare slots holding the same numbers as a quantity
+slot of equal shape (deterministic adversarial data for comparisons / searches / merges).
 
 Two relations are checked; neither needs a per-function expectation:
 
   (cov)  unit covariance with the bare slots held fixed: a bare argument carries no unit, so it is
-         not re-expressed; re-expressing the remaining quantity slots must change the result only by
-         re-expression (same machinery and aspects as the all-quantity section: H_run07).  A function
-         that merges values (concatenate / where / clip / insert / searchsorted / set operations ...)
-         cannot be covariant if it accepts bare + dimensionful data, so for those the relation holds
-         exactly when the call is refused (or the other operand is dimensionless) - which is what
-         unyt documents (`_validate_units_consistency`: a bare array counts as dimensionless).
-  (bdl)  bare == dimensionless: the same call with the bare slots replaced by explicitly
-         dimensionless unyt arrays of the same numbers must be refused as well, or give the same
-         quantity (a unit-less leaf is read as dimensionless: some handlers deliberately do not wrap a
-         result when nothing carried units).  Aspects `bdl-dims`, `bdl-value`, `bdl-raise`, `bdl-structure`.
+         not re-expressed (it counts as dimensionless); re-expressing the remaining quantity slots
+         must change the result only by re-expression (same machinery and aspects as the
+         all-quantity section: H_run07).  A function that merges values (concatenate / where / clip /
+         insert / searchsorted / set operations ...) cannot be covariant if it accepts bare +
+         dimensionful data, so for those the relation holds exactly when the call is refused (or the
+         other operand is dimensionless) - which is what unyt documents
+         (`_validate_units_consistency`: a bare array counts as dimensionless).
+  (bdl)  bare == dimensionless (ndarray form only): the same call with the bare slots replaced by
+         explicitly dimensionless unyt arrays of the same numbers must give the same quantity (a
+         unit-less leaf is read as dimensionless: some handlers deliberately do not wrap a result
+         when nothing carried units), and when unyt refuses the dimensionless form with a unit
+         error it must not accept the bare form.  Aspects `bdl-dims`, `bdl-value`, `bdl-structure`,
+         `bdl-raise`.  (The converse - bare refused, dimensionless accepted - is a refusal and
+         therefore no statement; a call that writes into a bare slot is not judged either: a bare
+         destination cannot carry units, that is C06's business.)
 
-0-d slots are never turned into python scalars (a python *number* is documented to be read in the
-array's unit - that convention is covered by the `bare-scalar` templates of the catalogue), they
-stay 0-d ndarrays.  The receiver of an ndarray method template stays a quantity (a method of a
-bare ndarray is not unyt's).  out= buffers (slot O) are not touched."""
+0-d slots (scalar parameters: initial=, left=/right=, period=, constant_values=, fill values, range
+ends, tolerances, dx) are not varied: a bare *number* there is documented to be read in the
+array's unit, which the `bare-scalar` / `*-bare` templates of the catalogue cover (findings section
+D).  The receiver of an ndarray method template stays a quantity (a method of a bare ndarray is not
+unyt's).  out= buffers (slot O) are not touched."""
 import inspect
 import itertools
 import re
 
 import numpy as np
 
-from lib_c06_harness import H_arr, H_close, H_env, H_eps, H_eval, H_leaves, replay_source  # noqa: F401
+from lib_c06_harness import H_arr, H_close, H_env, H_eps, H_eval, H_leaves, H_same, parse_spec, replay_source  # noqa: F401
 
 QDIMS = "LTMA1"
 _STR = r"'[^'\\]*'|\"[^\"\\]*\""
 
 
 def quantity_slots(c):
-    return [n for n, (d, s) in c.slots.items() if d in QDIMS and n != "O" and not s.startswith("@")]
+    """array arguments that carry units: quantity slots with ndim >= 1 (not the out= buffer)"""
+    return [n for n, (d, s) in c.slots.items()
+            if d in QDIMS and n != "O" and not s.startswith("@") and len(parse_spec(s)[1]) >= 1]
 
 
 def receiver_slots(c):
@@ -49,6 +60,8 @@ def bare_subsets(c):
     if len(q) < 2:
         return []
     rec = receiver_slots(c)
+    if c.fname.startswith("ndarray.") and not [n for n in rec if n in q]:
+        return []       # method of an array that is bare already (ndarray.choose of a bare index array)
     el = [n for n in q if n not in rec]
     out = []
     for k in range(1, len(el) + 1):
@@ -66,17 +79,34 @@ def listify(expr, names):
     return pat.sub(lambda m: m.group(1) if m.group(1) else m.group(2) + ".tolist()", expr)
 
 
+def aligned(sdm, bare):
+    """coinciding numbers: every bare slot that has a quantity partner of the same dtype and shape gets the
+    partner's numbers (the adversarial data for comparisons, searches and merges: when units are ignored
+    the numbers agree in one unit system and in no other).  -> slotdefs or None when nothing can be aligned"""
+    out = dict(sdm)
+    done = False
+    for n in bare:
+        for m, v in sdm.items():
+            if m != n and m != "O" and v[0] in "LTMA" and v[1:3] == sdm[n][1:3]:
+                out[n] = ("-",) + tuple(v[1:])
+                done = True
+                break
+    return out if done else None
+
+
 def mixed_configs(c, sd):
-    """-> [(bare slot tuple, form, slotdefs with the bare slots' dimension set to '-', expression)]"""
+    """-> [(bare slot tuple, form, slotdefs with the bare slots' dimension set to '-', expression)]; form is
+    ndarray | list | same-numbers (ndarray form on `aligned` data)"""
     out = []
     for s in bare_subsets(c):
         sdm = dict(sd)
         for n in s:
             sdm[n] = ("-",) + tuple(sd[n][1:])
         out.append((s, "ndarray", sdm, c.expr))
-        nd = [n for n in s if len(sd[n][2]) >= 1]
-        if nd:
-            out.append((s, "list", sdm, listify(c.expr, nd)))
+        out.append((s, "list", sdm, listify(c.expr, s)))
+        sda = aligned(sdm, s)
+        if sda is not None:
+            out.append((s, "same-numbers", sda, c.expr))
     return out
 
 
@@ -132,12 +162,22 @@ def M_run(sd, expr_mixed, expr_dl, bare, sysname, tol=1e-9):
     for n in bare:
         sdd[n] = ("1",) + tuple(sd[n][1:])
     em, ed = H_env(sd, sysname), H_env(sdd, sysname)
+    before = dict((n, np.array(em[n])) for n in bare)
     with np.errstate(all="ignore"):
         sm, rm = H_eval(expr_mixed, em)
         s1, rd = H_eval(expr_dl, ed)
+    if [n for n in bare if not H_same(before[n], np.asarray(em[n]))]:
+        # the call wrote into a bare slot: a bare destination cannot carry units (C06's business)
+        return "raises", [("info", "a bare slot is the destination of the call")]
     if sm == "exc" and s1 == "exc":
         return "raises", [("info", "%s: %s" % (type(rm).__name__, str(rm)[:160]))]
-    if sm != s1:
+    if sm == "exc":
+        return "raises", [("info", "bare form refused: %s: %s" % (type(rm).__name__, str(rm)[:160]))]
+    if s1 == "exc":
+        if not (type(rd).__module__.startswith("unyt") and type(rd).__name__ in (
+                "UnitInconsistencyError", "UnitConversionError", "UnitOperationError", "InvalidUnitOperation",
+                "IterableUnitCoercionError", "UnitsNotReducible")):
+            return "raises", [("info", "dimensionless form fails for another reason: %r" % (rd,))]
         return "ok", [("bdl-raise", "with bare %s -> %s, with the same numbers as dimensionless quantities -> %s" % (
             "/".join(bare), repr(rm)[:150] if sm == "exc" else "a result", repr(rd)[:150] if s1 == "exc" else "a result"))]
     try:
